@@ -16,18 +16,86 @@ theorem seqRes_ne_outOfFuel (f : Nat → Res) (cs : List Nat) (h : ∀ c ∈ cs,
     simp only [seqRes]
     cases hf : f c <;> simp_all
 
-/-- A rank certificate: every hop that does not deepen the token depth (pointer, interface)
-goes to a node of strictly smaller rank — i.e. no cycle consists of pointer/interface hops only. -/
-structure Ranked (g : Heap) (rank : Nat → Nat) (R : Nat) : Prop where
-  bound : ∀ n, rank n ≤ R
-  desc : ∀ n nd, g[n]? = some nd → nd.kind.deepens = false → ∀ c ∈ nd.succ, rank c < rank n
+/-! ### the measure: nodes not yet in the visited set, and the kind of the current node -/
 
-/-- With a rank certificate the traversal ends: fuel (max+1-depth)·(R+1) + rank n + 1 is enough. -/
-theorem marshal_terminates (g : Heap) (max after : Nat) (rank : Nat → Nat) (R : Nat)
-    (hr : Ranked g rank R) :
-    ∀ (fuel depth : Nat) (seen : List Nat) (n : Nat), depth ≤ max + 1 →
-      (max + 1 - depth) * (R + 1) + rank n < fuel →
-      marshal g max after fuel depth seen n ≠ .outOfFuel := by
+/-- number of nodes of `g` that are not in `seen` -/
+def unseen (g : Heap) (seen : List Nat) : Nat := (List.range g.length).countP (fun i => !seen.contains i)
+
+theorem countP_le_of_imp {α} (p q : α → Bool) (l : List α) (h : ∀ x ∈ l, p x = true → q x = true) :
+    l.countP p ≤ l.countP q := by
+  induction l with
+  | nil => simp
+  | cons a l ih =>
+    have ih' := ih (fun x hx => h x (by simp [hx]))
+    have ha := h a (by simp)
+    simp only [List.countP_cons]
+    cases hp : p a <;> cases hq : q a <;> simp_all <;> omega
+
+theorem countP_lt_of_imp {α} (p q : α → Bool) (l : List α) (h : ∀ x ∈ l, p x = true → q x = true)
+    (a : α) (ha : a ∈ l) (hqa : q a = true) (hpa : p a = false) : l.countP p < l.countP q := by
+  induction l with
+  | nil => simp at ha
+  | cons b l ih =>
+    simp only [List.countP_cons]
+    have hmono := countP_le_of_imp p q l (fun x hx => h x (by simp [hx]))
+    rcases List.mem_cons.1 ha with rfl | hmem
+    · simp [hqa, hpa]; omega
+    · have := ih (fun x hx => h x (by simp [hx])) hmem
+      have hb := h b (by simp)
+      cases hp : p b <;> cases hq : q b <;> simp_all <;> omega
+
+theorem unseen_le (g : Heap) (seen : List Nat) : unseen g seen ≤ g.length := by
+  unfold unseen
+  have := List.countP_le_length (p := fun i => !seen.contains i) (l := List.range g.length)
+  simpa using this
+
+theorem unseen_cons_le (g : Heap) (seen : List Nat) (n : Nat) : unseen g (n :: seen) ≤ unseen g seen := by
+  unfold unseen
+  apply countP_le_of_imp
+  intro x _ hx
+  simp at hx ⊢
+  exact hx.2
+
+theorem unseen_cons_lt (g : Heap) (seen : List Nat) (n : Nat) (hn : n < g.length) (hs : n ∉ seen) :
+    unseen g (n :: seen) < unseen g seen := by
+  unfold unseen
+  apply countP_lt_of_imp _ _ _ _ n (by simpa using hn)
+  · simpa using hs
+  · simp
+  · intro x _ hx
+    simp at hx ⊢
+    exact hx.2
+
+/-- 2 for an interface, 1 for a pointer, 0 otherwise (also for a missing node) -/
+def flag (g : Heap) (n : Nat) : Nat :=
+  match kindOf g n with
+  | some .iface => 2
+  | some .ptr => 1
+  | _ => 0
+
+theorem flag_le (g : Heap) (n : Nat) : flag g n ≤ 2 := by
+  unfold flag; split <;> omega
+
+theorem flag_of_not_ptrLike {g : Heap} {c : Nat} (h : isPtrLike g c = false) : flag g c = 0 := by
+  unfold isPtrLike at h
+  unfold flag
+  split <;> simp_all
+
+theorem flag_of_not_iface {g : Heap} {c : Nat} (h : isIface g c = false) : flag g c ≤ 1 := by
+  unfold isIface at h
+  unfold flag
+  split <;> simp_all
+
+theorem lt_length_of_get {g : Heap} {n : Nat} {nd : Node} (h : g[n]? = some nd) : n < g.length := by
+  have := List.getElem?_eq_some_iff.1 h
+  exact this.1
+
+/-- The traversal with the `pointsToPointerLike` clause ends on EVERY heap:
+fuel (max+1-depth)·(3·|g|+3) + 3·unseen + flag + 1 is enough. -/
+theorem marshal_terminates (cfg : Cfg) (g : Heap) (ht : cfg.trackPtrLike = true) :
+    ∀ (fuel depth : Nat) (seen : List Nat) (n : Nat), depth ≤ cfg.max + 1 →
+      (cfg.max + 1 - depth) * (3 * g.length + 3) + 3 * unseen g seen + flag g n < fuel →
+      marshal cfg g fuel depth seen n ≠ .outOfFuel := by
   intro fuel
   induction fuel with
   | zero => intro depth seen n _ h; omega
@@ -37,71 +105,152 @@ theorem marshal_terminates (g : Heap) (max after : Nat) (rank : Nat → Nat) (R 
     cases hg : g[n]? with
     | none => simp
     | some nd =>
+      have hn := lt_length_of_get hg
       simp only
       split
       · simp
-      · split
+      · rename_i hcyc
+        -- the visited set handed to the children
+        have hseen_le : unseen g (if consults cfg g nd depth = true then n :: seen else seen) ≤ unseen g seen := by
+          split
+          · exact unseen_cons_le g seen n
+          · exact Nat.le_refl _
+        split
         · simp
         · split
-          · rename_i hdeep
+          · -- slice / map / array / struct
             split
             · simp
             · split
               · simp
-              · rename_i hne
-                apply seqRes_ne_outOfFuel
+              · apply seqRes_ne_outOfFuel
                 intro c _
                 apply ih
                 · omega
-                · have hb := hr.bound c
-                  have hb' := hr.bound n
-                  have e : max + 1 - depth = (max + 1 - (depth + 1)) + 1 := by omega
+                · have hu := unseen_le g (if consults cfg g nd depth = true then n :: seen else seen)
+                  have hfl := flag_le g c
+                  have e : cfg.max + 1 - depth = (cfg.max + 1 - (depth + 1)) + 1 := by omega
                   rw [e, Nat.succ_mul] at hf
-                  generalize (max + 1 - (depth + 1)) * (R + 1) = A at hf ⊢
+                  generalize (cfg.max + 1 - (depth + 1)) * (3 * g.length + 3) = A at hf ⊢
                   omega
-          · rename_i hdeep
-            apply seqRes_ne_outOfFuel
-            intro c hc
-            apply ih _ _ _ hd
-            have := hr.desc n nd hg (by simpa using hdeep) c hc
-            generalize (max + 1 - depth) * (R + 1) = A at hf ⊢
-            omega
+          · rename_i hscalar hdeep
+            split
+            · simp
+            · rename_i hiface
+              apply seqRes_ne_outOfFuel
+              intro c hc
+              apply ih _ _ _ hd
+              generalize (cfg.max + 1 - depth) * (3 * g.length + 3) = A at hf ⊢
+              -- pointer or interface
+              have hkind : nd.kind = .ptr ∨ nd.kind = .iface := by
+                cases hk : nd.kind <;> simp_all [Kind.deepens]
+              have hflagn : flag g n = (if nd.kind = .iface then 2 else 1) := by
+                unfold flag kindOf
+                rcases hkind with hk | hk <;> simp [hg, hk]
+              rcases hkind with hk | hk
+              · -- pointer
+                by_cases hpl : isPtrLike g c = true
+                · -- target is pointer-like: the pointer is tracked, so it enters the visited set
+                  have hcons : consults cfg g nd depth = true := by
+                    unfold consults pointsToPtrLike
+                    have : nd.succ.any (isPtrLike g) = true := List.any_eq_true.2 ⟨c, hc, hpl⟩
+                    simp [hk, Kind.tracked, ht, this]
+                  have hns : n ∉ seen := by
+                    intro hmem; exact hcyc ⟨hcons, hmem⟩
+                  have hlt := unseen_cons_lt g seen n hn hns
+                  have hfl := flag_le g c
+                  simp only [hcons, if_true]
+                  simp [hk] at hflagn
+                  omega
+                · have hfl := flag_of_not_ptrLike (by simpa using hpl : isPtrLike g c = false)
+                  simp [hk] at hflagn
+                  omega
+              · -- interface: its value is not an interface
+                have hni : isIface g c = false := by
+                  cases hci : isIface g c with
+                  | false => rfl
+                  | true => exact absurd ⟨hk, List.any_eq_true.2 ⟨c, hc, hci⟩⟩ hiface
+                have hfl := flag_of_not_iface hni
+                simp [hk] at hflagn
+                omega
 
-/-! ### the pointer-only cycle: the traversal as implemented never ends -/
+/-! ### the old traversal (no `pointsToPointerLike` clause): pointer-only cycles never end -/
 
-theorem selfPtr_diverges (max after : Nat) :
-    ∀ (fuel depth : Nat) (seen : List Nat), depth ≤ after →
-      marshal selfPtr max after fuel depth seen 0 = .outOfFuel := by
+theorem selfPtr_diverges_old (cfg : Cfg) (ht : cfg.trackPtrLike = false) :
+    ∀ (fuel depth : Nat) (seen : List Nat), depth ≤ cfg.after →
+      marshal cfg selfPtr fuel depth seen 0 = .outOfFuel := by
   intro fuel
   induction fuel with
   | zero => intro depth seen _; rfl
   | succ fuel ih =>
     intro depth seen hd
-    have hlt : ¬ after < depth := by omega
-    unfold marshal
-    simp [selfPtr, Kind.tracked, Kind.deepens, hlt, seqRes]
+    have hlt : ¬ cfg.after < depth := by omega
     have := ih depth seen hd
+    unfold marshal
+    simp [selfPtr, consults, Kind.tracked, Kind.deepens, hlt, ht, seqRes]
     simp [selfPtr] at this
     rw [this]
 
-theorem selfIface_diverges (max after : Nat) :
-    ∀ (fuel depth : Nat) (seen : List Nat), depth ≤ after →
-      marshal selfIface max after fuel depth seen 0 = .outOfFuel ∧
-      marshal selfIface max after fuel depth seen 1 = .outOfFuel := by
+theorem selfIface_diverges_old (cfg : Cfg) (ht : cfg.trackPtrLike = false) :
+    ∀ (fuel depth : Nat) (seen : List Nat), depth ≤ cfg.after →
+      marshal cfg selfIface fuel depth seen 0 = .outOfFuel ∧
+      marshal cfg selfIface fuel depth seen 1 = .outOfFuel := by
   intro fuel
   induction fuel with
   | zero => intro depth seen _; exact ⟨rfl, rfl⟩
   | succ fuel ih =>
     intro depth seen hd
-    have hlt : ¬ after < depth := by omega
+    have hlt : ¬ cfg.after < depth := by omega
     obtain ⟨h0, h1⟩ := ih depth seen hd
     simp [selfIface] at h0 h1
     constructor
     · unfold marshal
-      simp [selfIface, Kind.tracked, Kind.deepens, hlt, seqRes]
+      simp [selfIface, consults, Kind.tracked, Kind.deepens, hlt, ht, seqRes, isIface, kindOf]
       rw [h1]
     · unfold marshal
-      simp [selfIface, Kind.tracked, Kind.deepens, hlt, seqRes]
+      simp [selfIface, consults, Kind.tracked, Kind.deepens, hlt, ht, seqRes, isIface, kindOf]
       rw [h0]
+
+/-! ### the new traversal reports them -/
+
+set_option linter.unusedSimpArgs false
+
+theorem selfPtr_cycle (cfg : Cfg) (ht : cfg.trackPtrLike = true) (fuel depth : Nat) :
+    marshal cfg selfPtr (fuel + 2) depth [] 0 = .cycle := by
+  unfold marshal
+  simp [selfPtr, consults, pointsToPtrLike, isPtrLike, kindOf, Kind.tracked, Kind.deepens, ht, seqRes]
+  unfold marshal
+  simp [consults, pointsToPtrLike, isPtrLike, kindOf, Kind.tracked, ht]
+
+theorem selfIface_cycle (cfg : Cfg) (ht : cfg.trackPtrLike = true) (fuel depth : Nat) :
+    marshal cfg selfIface (fuel + 4) depth [] 0 = .cycle := by
+  unfold marshal
+  simp [selfIface, consults, pointsToPtrLike, isPtrLike, isIface, kindOf, Kind.tracked, Kind.deepens, seqRes]
+  unfold marshal
+  simp [selfIface, consults, pointsToPtrLike, isPtrLike, isIface, kindOf, Kind.tracked, Kind.deepens, ht, seqRes]
+  unfold marshal
+  simp [selfIface, consults, pointsToPtrLike, isPtrLike, isIface, kindOf, Kind.tracked, Kind.deepens, seqRes]
+  unfold marshal
+  simp [selfIface, consults, pointsToPtrLike, isPtrLike, isIface, kindOf, Kind.tracked, ht]
+
+/-! ### the `[]` / `{}` shortcut at the depth limit -/
+
+/-- With the `AtMaxDepth` guard, a container met at `Depth() = max+1` is never written: the result is
+the cycle error (if the visited set already holds it) or errMaxDepth — also when it is empty. -/
+theorem container_at_limit_refused (cfg : Cfg) (g : Heap) (hg : cfg.guardEmpty = true)
+    (fuel : Nat) (seen : List Nat) (n : Nat) (nd : Node) (hn : g[n]? = some nd) (hk : nd.kind.deepens = true) :
+    marshal cfg g (fuel + 1) (cfg.max + 1) seen n =
+      if consults cfg g nd (cfg.max + 1) = true ∧ n ∈ seen then .cycle else .maxDepth := by
+  unfold marshal
+  have hs : nd.kind ≠ .scalar := by intro h; simp [h, Kind.deepens] at hk
+  simp [hn, hk, hg, hs]
+
+/-- Without the guard (the code before c2b1a73) an empty slice or map at `Depth() = max+1` is written. -/
+theorem old_shortcut_accepts (cfg : Cfg) (g : Heap) (hg : cfg.guardEmpty = false)
+    (fuel : Nat) (seen : List Nat) (n : Nat) (nd : Node) (hn : g[n]? = some nd)
+    (hk : nd.kind = .slice ∨ nd.kind = .map) (he : nd.succ = []) (hs : n ∉ seen) :
+    marshal cfg g (fuel + 1) (cfg.max + 1) seen n = .ok := by
+  unfold marshal
+  rcases hk with hk | hk <;> simp [hn, hk, he, hg, hs, Kind.deepens]
 
 end JsonV.Lemmas.DepthCycleL
